@@ -491,3 +491,178 @@ def rule_column_bytes(cx, tier):
                               fn.file, c.line))
     r.floor("str slicing sites outside the lexer", n, 8)
     return r
+
+
+# ---------------------------------------------------------------------------------------------
+# R-FMT-SPEC (C11): each field of a format spec is re-emitted on its own
+
+def rule_fmt_spec(cx, tier):
+    r = RuleResult("R-FMT-SPEC",
+                   "the formatter re-emits a string format spec field by field: in every koto_format function that takes "
+                   "`&StringFormatOptions`, the code that reads one field (fill_character, alignment, min_width, precision, "
+                   "representation) is not control-dependent on the value of another field -- the parser accepts every "
+                   "field on its own, so a field emitted only when another one is set is dropped from some programs")
+    subjects = []
+    for fn in cx.F.crate_fns("koto_format"):
+        ps = [i for i in range(1, fn.argc + 1) if "StringFormatOptions" in (fn.local_tstr(i) or "")]
+        if ps and fn.kind != "Closure":
+            subjects.append((fn, ps[0]))
+    r.floor("koto_format functions taking StringFormatOptions", len(subjects), 1)
+    reads_total = 0
+    for fn, p in subjects:
+        cfg = cx.cfg(fn)
+        calls = {c.bb: c for c in fn.calls()}
+
+        def field_of(place):
+            if place is None or place[0] != p:
+                return None
+            fs = place_fields(place)
+            return fs[0] if fs else None
+        # reads per field, and the initial taint
+        reads = {}
+        taint = {}
+        for b in fn.blocks:
+            if b.cleanup:
+                continue
+            for st in b.stmts:
+                if st[0] != "a":
+                    continue
+                for pl in rv_places(st[2]):
+                    f = field_of(pl)
+                    if f is not None:
+                        reads.setdefault(f, set()).add(b.idx)
+                        taint.setdefault(f, set()).add(st[1][0])
+            c = calls.get(b.idx)
+            if c is not None:
+                for a in c.args:
+                    f = field_of(op_place(a))
+                    if f is not None:
+                        reads.setdefault(f, set()).add(b.idx)
+                        taint.setdefault(f, set()).add(c.dest[0])
+
+        def region(sb):
+            out = set()
+            for t in cfg.succ[sb]:
+                if set(cfg.pred[t]) <= {sb}:
+                    out |= {x for x in cfg.reach if x == t or cfg.dominates(t, x)}
+            # a region that every outcome shares is not controlled by the test
+            return out
+        switches = [b.idx for b in fn.blocks if not b.cleanup and b.term[0] == "switch"]
+        changed = True
+        while changed:
+            changed = False
+            for f, ts in taint.items():
+                n0 = len(ts)
+                for b in fn.blocks:
+                    if b.cleanup:
+                        continue
+                    for st in b.stmts:
+                        if st[0] == "a" and any(pl[0] in ts for pl in rv_places(st[2])):
+                            ts.add(st[1][0])
+                    c = calls.get(b.idx)
+                    if c is not None and any(op_place(a) is not None and op_place(a)[0] in ts for a in c.args):
+                        ts.add(c.dest[0])
+                for sb in switches:
+                    if op_base(fn.blocks[sb].term[1]) in ts:
+                        for x in region(sb):
+                            for st in fn.blocks[x].stmts:
+                                if st[0] == "a":
+                                    ts.add(st[1][0])
+                            c = calls.get(x)
+                            if c is not None:
+                                ts.add(c.dest[0])
+                if len(ts) != n0:
+                    changed = True
+        # the result accumulator is written everywhere: it is not a carrier of a field's value for this purpose
+        for f, bbs in sorted(reads.items()):
+            for bb in sorted(bbs):
+                reads_total += 1
+                r.instances += 1
+                r.nontrivial += 1
+                culprit = None
+                for sb in switches:
+                    l = op_base(fn.blocks[sb].term[1])
+                    if l is None or l in taint.get(f, ()):
+                        continue
+                    gs = [g for g, ts in taint.items() if g != f and l in ts]
+                    if gs and bb in region(sb):
+                        culprit = (sb, gs)
+                        break
+                r.sample({"fn": fn.qual.rsplit("::", 1)[-1], "field": f, "line": line_of(fn, bb),
+                          "depends_on": culprit[1] if culprit else []})
+                if culprit:
+                    r.add(Finding("R-FMT-SPEC", fn.qual, f"{f}:depends-on:{','.join(culprit[1])}",
+                                  f"`{f}` is only read (and re-emitted) on one outcome of a test of `{', '.join(culprit[1])}` "
+                                  f"(line {line_of(fn, culprit[0])}): a spec that sets `{f}` without it loses `{f}` when "
+                                  f"formatted", fn.file, line_of(fn, bb)))
+    r.floor("format spec field reads", reads_total, 5)
+    r.analysed = {"functions": [f.qual for f, _ in subjects], "field_reads": reads_total}
+    return r
+
+
+# ---------------------------------------------------------------------------------------------
+# R-LINE-OFFSETS (C11, C12): byte positions are not summed up from the lengths of `lines()` items
+
+def rule_line_offsets(cx, tier):
+    r = RuleResult("R-LINE-OFFSETS",
+                   "`str::lines()` strips `\\n` *and* `\\r\\n`, so the byte length of its items says nothing exact about "
+                   "where the next line starts: no koto crate adds up `line.len()` of a `lines()` item (directly, in a "
+                   "loop, or in a closure handed to an adaptor over `Lines`) -- positions come from the newline's own index")
+    from .iters import _taint_from
+    uses = 0
+    examined = 0
+    by_name = cx.F.fns
+    for fn in cx.F.fns.values():
+        if fn.derived or not fn.crate.uname.startswith("koto"):
+            continue
+        calls = fn.calls()
+        sources = []   # (function, tainted locals)
+        for c in calls:
+            gas = " ".join((c.ga_str(i) or "") for i in range(len(c.ga or [])))
+            recv_ty = fn.crate.tstr(c.arg_ty(0)) if c.args else ""
+            over_lines = "str::Lines<" in gas or "str::Lines<" in (recv_ty or "")
+            if c.short == "str::lines":
+                uses += 1
+            if not over_lines:
+                continue
+            last = (c.short or "").rsplit("::", 1)[-1]
+            if last in ("next", "next_back", "nth", "last"):
+                sources.append((fn, {c.dest[0]}))
+            for name in c.cl or []:
+                g = by_name.get(name)
+                if g is not None:
+                    # every `&str` (or tuple holding one) parameter of the closure is a line
+                    ps = {i for i in range(2, g.argc + 1) if "str" in (g.local_tstr(i) or "")}
+                    if ps:
+                        sources.append((g, ps))
+        for g, start in sources:
+            examined += 1
+            r.instances += 1
+            t = set()
+            for s in start:
+                t |= _taint_from(g, s)
+            lens = [c for c in g.calls() if c.short in ("str::len", "String::len") and c.args and
+                    op_place(c.args[0]) is not None and op_place(c.args[0])[0] in t]
+            if not lens:
+                continue
+            r.nontrivial += 1
+            t2 = set()
+            for c in lens:
+                t2 |= _taint_from(g, c.dest[0])
+            hit = None
+            for b in g.blocks:
+                if b.cleanup:
+                    continue
+                for st in b.stmts:
+                    if st[0] == "a" and st[2][0] == "bin" and st[2][1] in ("Add", "AddWithOverflow", "AddUnchecked") and \
+                            any(op_base(o) in t2 for o in (st[2][2], st[2][3])):
+                        hit = hit or line_of(g, b.idx)
+            if hit is not None:
+                r.add(Finding("R-LINE-OFFSETS", g.qual, "sum-of-lines-len",
+                              "the byte length of a `lines()` item is added up: for a line that ends in `\\r\\n` the sum is one "
+                              "byte short per line, so every later position (line start, slice, excerpt) is shifted",
+                              g.file, hit))
+            r.sample({"fn": g.qual, "len_of_line_items": len(lens), "summed": hit is not None})
+    r.floor("uses of str::lines() in the koto crates", uses, 3)
+    r.analysed = {"lines_uses": uses, "line_item_scopes": examined}
+    return r
